@@ -59,6 +59,10 @@ type fileSpec struct {
 	// Slash: the in-memory backend reports this collection with a trailing
 	// slash (fs-mem only).
 	Slash bool `json:"slash,omitempty"`
+	// Link: this entry is a symbolic link with the given relative target
+	// (fs-local only). LinkKind: "dir", "file" or "dangling".
+	Link     string `json:"link,omitempty"`
+	LinkKind string `json:"link_kind,omitempty"`
 }
 
 type collSpec struct {
@@ -114,12 +118,24 @@ type resource struct {
 	// Required: properties the resource has according to the double's content
 	// (a lower bound of what propname must list), with their expected values.
 	Required map[string]valueCheck
+	// Link: a symbolic link. It is a directory entry of its collection and so
+	// in scope as a member, but how it is described (file or collection,
+	// which properties and values) is left open: no reference is taken.
+	Link bool
+	// LinkDir: the link points to a directory; answers below it are
+	// don't-care at Depth infinity.
+	LinkDir bool
+	// Optional: a dangling link may be listed or omitted.
+	Optional bool
 }
 
 type reference struct {
-	ok     bool
-	names  map[string]bool   // the resource's propname answer
-	values map[string]string // canonical value per name from the Depth-0 allprop answer
+	// selfOnly: no Depth-0 reference exists for this resource (symbolic
+	// link); only the answer's own consistency is judged.
+	selfOnly bool
+	ok       bool
+	names    map[string]bool   // the resource's propname answer
+	values   map[string]string // canonical value per name from the Depth-0 allprop answer
 }
 
 type env struct {
@@ -224,13 +240,21 @@ func (e *env) lookup(p string) int {
 	}
 	i, ok := e.byPath[q]
 	if !ok {
+		for _, r := range e.res {
+			if r.LinkDir && strings.HasPrefix(q, r.Path+"/") {
+				return belowLink
+			}
+		}
 		return -1
 	}
-	if hadSlash && !e.res[i].Coll {
+	if hadSlash && !e.res[i].Coll && !e.res[i].LinkDir {
 		return -1
 	}
 	return i
 }
+
+// belowLink is lookup's answer for a path below a link to a directory.
+const belowLink = -2
 
 func (e *env) children(i int) []int {
 	var l []int
@@ -304,6 +328,17 @@ func (e *env) addFileResources(local bool) {
 		if f.Path != "/" {
 			r.Parent = idx[parentPath(f.Path)]
 		}
+		if f.Link != "" {
+			r.Link = true
+			r.Level = "symlink-" + f.LinkKind
+			r.LinkDir = f.LinkKind == "dir"
+			r.Optional = f.LinkKind == "dangling"
+			r.Coll = false
+			idx[f.Path] = len(e.res)
+			e.byPath[f.Path] = len(e.res)
+			e.res = append(e.res, r)
+			continue
+		}
 		switch {
 		case f.Path == "/":
 			r.Level = "root"
@@ -351,6 +386,12 @@ func (e *env) buildLocal(workDir string) error {
 	// Files are listed parents first.
 	for _, f := range e.W.Files {
 		p := filepath.Join(root, filepath.FromSlash(f.Path))
+		if f.Link != "" {
+			if err := os.Symlink(filepath.FromSlash(f.Link), p); err != nil {
+				return err
+			}
+			continue
+		}
 		if f.Dir {
 			if f.Path != "/" {
 				if err := os.Mkdir(p, 0755); err != nil {
